@@ -93,6 +93,7 @@ CaseResult run_mapped(const RunCtx &ctx, TapeReader &t, unsigned size_hint) {
     o.pow2_sizes = true;
     o.xkeys = ctx.x("xkeys");
     o.xthreads = ctx.x("xthreads");
+    o.xprocs = ctx.x("xprocs");
     std::vector<K> keys = gen_keys<K>(t, o, meta);
     const size_t n = keys.size();
 
@@ -122,6 +123,7 @@ CaseResult run_mapped(const RunCtx &ctx, TapeReader &t, unsigned size_hint) {
         if (!xk.empty()) {
             res.xdata.emplace_back("xkeys", xk);
             res.xdata.emplace_back("xthreads", std::to_string(meta.threads));
+            res.xdata.emplace_back("xprocs", std::to_string(meta.procs));
             if (c12) {
                 std::string s;
                 for (int op: script) s += char('0' + op);
